@@ -117,6 +117,11 @@ func (srv *Server) ServeDNS(w dns.ResponseWriter, r *dns.Msg) {
 }
 
 func (srv *Server) handleRequest(wkr *mgr.WorkerCtx, w dns.ResponseWriter, r *dns.Msg) {
+	// Ignore queries without a question.
+	if len(r.Question) == 0 {
+		srv.replyNotFound(wkr, w, r)
+		return
+	}
 	q := r.Question[0]
 	queryName := strings.ToLower(q.Name)
 
@@ -272,6 +277,13 @@ func (srv *Server) replyNotFound(wkr *mgr.WorkerCtx, w dns.ResponseWriter, r *dn
 	srv.replyMsg(wkr, w, new(dns.Msg).SetRcode(r, dns.RcodeNameError))
 }
 
+func questionName(msg *dns.Msg) string {
+	if len(msg.Question) == 0 {
+		return ""
+	}
+	return msg.Question[0].Name
+}
+
 func (srv *Server) replyMsg(wkr *mgr.WorkerCtx, w dns.ResponseWriter, reply *dns.Msg) {
 	// The gVisor netstack hangs at
 	//   tcpip/adapters/gonet.(*UDPConn).WriteTo+0x6b0
@@ -285,7 +297,7 @@ func (srv *Server) replyMsg(wkr *mgr.WorkerCtx, w dns.ResponseWriter, reply *dns
 	if err != nil {
 		wkr.Error(
 			"failed to set write deadline for dns response",
-			"name", reply.Question[0].Name,
+			"name", questionName(reply),
 			"rcode", reply.Rcode,
 			"err", err,
 		)
@@ -296,7 +308,7 @@ func (srv *Server) replyMsg(wkr *mgr.WorkerCtx, w dns.ResponseWriter, reply *dns
 	if err != nil {
 		wkr.Error(
 			"failed to write dns response",
-			"name", reply.Question[0].Name,
+			"name", questionName(reply),
 			"rcode", reply.Rcode,
 			"err", err,
 		)
